@@ -339,6 +339,51 @@ static string run_threads_fresh(unsigned nthreads, unsigned n, unsigned long lon
   return "mis=" + udec(mis) + ";dead=" + udec(dead) + ";cnt=" + udec(1ULL * THR_PHASES * nthreads * n * rounds);
 }
 
+// ---- printers on long-lived objects (op "reprint"): an object that has been printed is given a new
+// value (operator= from an object / from a temporary, std::swap, via a printed copy; DmxBuffer also
+// through Set / SetFromString) and printed again: the text must be that of the current value.
+template <typename V>
+static string reprint(const V &a, const V &b, int mode) {
+  V obj(a);
+  string s1 = obj.ToString();
+  std::ostringstream o1;
+  o1 << obj;
+  switch (mode) {
+    case 0: obj = b; break;
+    case 1: obj = V(b); break;
+    case 2: { V tmp(b); tmp.ToString(); std::swap(obj, tmp); break; }
+    default: { V copy(obj); copy.ToString(); copy = b; obj = copy; break; }
+  }
+  string s2 = obj.ToString();
+  std::ostringstream o2;
+  o2 << obj;
+  string s3 = obj.ToString();   // and once more, now that any cache is warm again
+  bool o = o1.str() == s1 && o2.str() == s2 && s3 == s2;
+  return "s1=" + hx(s1) + ";s2=" + hx(s2) + ";o=" + (o ? "1" : "0") + ";eq=" + (obj == b ? "1" : "0");
+}
+static string reprint_dmx(const vector<uint8_t> &d1, const vector<uint8_t> &d2, int mode) {
+  ola::DmxBuffer a(d1.data(), d1.size()), b(d2.data(), d2.size());
+  if (mode < 4) return reprint(a, b, mode);
+  ola::DmxBuffer obj(a);
+  string s1 = obj.ToString();
+  std::ostringstream o1;
+  o1 << obj;
+  uint8_t none = 0;   // Set(NULL, 0) is refused by design: pass a valid pointer for the empty frame
+  if (mode == 4) { obj.Set(d2.empty() ? &none : d2.data(), d2.size()); } else { obj.SetFromString(b.ToString()); }
+  string s2 = obj.ToString();
+  std::ostringstream o2;
+  o2 << obj;
+  bool o = o1.str() == s1 && o2.str() == s2;
+  return "s1=" + hx(s1) + ";s2=" + hx(s2) + ";o=" + (o ? "1" : "0") + ";eq=" + (obj == b ? "1" : "0");
+}
+static ola::network::IPV4SocketAddress sa_of(const string &v) {
+  vector<string> p = vh::split(v, '/');
+  vector<uint8_t> d = vh::unhex(p[0]);
+  uint32_t v4;
+  memcpy(&v4, d.data(), 4);
+  return ola::network::IPV4SocketAddress(ola::network::IPV4Address(v4), static_cast<uint16_t>(vh::num(p[1])));
+}
+
 static string handle(const string &p) {
   vector<string> a = vh::split(p);
   const string &op = a[0];
@@ -654,6 +699,24 @@ static string handle(const string &p) {
     try { r = handle(p.substr(p2 + 1)); } catch (...) { g_dirty_on = false; throw; }
     g_dirty_on = false;
     return r;
+  }
+  if (op == "reprint") {   // reprint <type> <mode> <value1> <value2>
+    const string &ty = a[1];
+    int mode = vh::num(a[2]);
+    if (ty == "uid") return reprint(ola::rdm::UID(static_cast<uint64_t>(vh::num(a[3]))),
+                                    ola::rdm::UID(static_cast<uint64_t>(vh::num(a[4]))), mode);
+    if (ty == "sa") return reprint(sa_of(a[3]), sa_of(a[4]), mode);
+    vector<uint8_t> d1 = vh::unhex(a[3]), d2 = vh::unhex(a[4]);
+    if (ty == "dmx") return reprint_dmx(d1, d2, mode);
+    if (ty == "mac") return reprint(ola::network::MACAddress(d1.data()), ola::network::MACAddress(d2.data()), mode);
+    if (ty == "cid") return reprint(ola::acn::CID::FromData(d1.data()), ola::acn::CID::FromData(d2.data()), mode);
+    if (ty == "ip6") return reprint(ola::network::IPV6Address(d1.data()), ola::network::IPV6Address(d2.data()), mode);
+    if (ty == "ip4") {
+      uint32_t x, y;
+      memcpy(&x, d1.data(), 4); memcpy(&y, d2.data(), 4);
+      return reprint(ola::network::IPV4Address(x), ola::network::IPV4Address(y), mode);
+    }
+    return "bad-type";
   }
   if (op == "thr") return run_threads(vh::num(a[1]), vh::num(a[2]), vh::num(a[3]));
   if (op == "thrf") return run_threads_fresh(vh::num(a[1]), vh::num(a[2]), vh::num(a[3]), vh::num(a[4]));
